@@ -6,6 +6,7 @@ import Mathlib.Algebra.Order.Field.Basic
 import Mathlib.Algebra.Order.Field.Rat
 import OtelVerif.Lemmas.SeriesStore
 import OtelVerif.Lemmas.SeriesKey
+import OtelVerif.Lemmas.SeriesFree
 import OtelVerif.Model.HistogramStore
 /-! # C07 — histogram points are exact summaries of the recorded values
 
@@ -667,5 +668,85 @@ theorem storage_series_count_and_sum {K : Type} [DecidableEq K] (k : Kind) (cfg 
   intro c
   exact ⟨run_key_totals k0 c (countMeasure k cfg) hiter ops (Store.init c) (fun _ => 0) 0 0 (sinvK_init k0 c (countMeasure k cfg)) (by show 0 + recordCount ops + 1 < limit; omega) hops,
     run_key_totals k0 c (sumMeasure k cfg) hiter ops (Store.init c) (fun _ => 0) 0 0 (sinvK_init k0 c (sumMeasure k cfg)) (by show 0 + recordCount ops + 1 < limit; omega) hops⟩
+
+open Otel.Series in
+/-- `hist` is a homomorphism from the free aggregation (lists of values) to the histogram aggregation -/
+theorem histHom (k : Kind) (cfg : Option Config) : AggHom (freeAgg : Agg Rat (List Rat)) (histAgg k cfg) (hist k cfg) :=
+  { new := rfl
+    add := fun a v => by simp [freeAgg, histAgg, hist, List.foldl_append]
+    merge := fun a b => (merge_hom k cfg a b).symm }
+
+open Otel.Series in
+/-- **the whole point, per series, through the storage** (below the cardinality limit): for every history of `Record`s
+    and `Collect`s, any number of delta and cumulative readers and any enumeration order of the hash tables, the point
+    reported for attribute set `k0` at the `i`-th collect is `hist` of the values recorded with `k0` in that reader's
+    interval (delta) / so far (cumulative) — "the point that recording all their values into one histogram would give".
+    The values are given as the multiset the specification `specTotals` accumulates; by `hist_perm` any listing of it
+    gives the same point.  (`iterL` is the enumeration order acting on the value-list tables of the free store; it
+    must be the same reordering as `iterP`, i.e. the order may depend on keys and positions, not on the values.) -/
+theorem storage_series_point {K : Type} [DecidableEq K] (k : Kind) (cfg : Option Config) (ovf : K) (limit : Nat)
+    (temps : List Temporality) (iterP : List (K × Point) → List (K × Point)) (iterL : List (K × List Rat) → List (K × List Rat))
+    (hiter : ∀ l, (iterL l).Perm l) (hcompat : ∀ es, iterP (mapE (hist k cfg) es) = mapE (hist k cfg) (iterL es))
+    (ops : List (Op K Rat)) (hops : ∀ r, Op.collect r ∈ ops → r < temps.length) (hroom : recordCount ops + 1 < limit) (k0 : K) :
+    let cP : Cfg K Point Rat := { ag := histAgg k cfg, ovf := ovf, limit := limit, temps := temps, iter := iterP }
+    let spec := specTotals cP (fun k' v => if k' = k0 then ({v} : Multiset Rat) else 0) (fun _ => 0) 0 ops
+    ∀ (i r : Nat) (es : List (K × Point)), (Store.run cP (Store.init cP) ops).2[i]? = some (r, some es) →
+      ∀ p, lookupKey k0 es = some p →
+        ∃ m, spec[i]? = some (r, m) ∧ ∀ l : List Rat, (l : Multiset Rat) = m → p = hist k cfg l := by
+  intro cP spec i r es hi p hp
+  let cL : Cfg K (List Rat) Rat := { ag := freeAgg, ovf := ovf, limit := limit, temps := temps, iter := iterL }
+  have hc : CfgHom cL cP (hist k cfg) := { ag := histHom k cfg, ovf := rfl, limit := rfl, temps := rfl, iter := hcompat }
+  -- the run with histograms is the image of the run with value lists
+  have hrun := run_map hc ops (Store.init cL)
+  rw [← init_map hc] at hrun
+  -- per key, the value lists are what the specification says
+  have hkey := run_key_totals k0 cL freeMeasure hiter ops (Store.init cL) (fun _ => 0) 0 0 (sinvK_init k0 cL freeMeasure)
+    (by show 0 + recordCount ops + 1 < limit; omega) hops
+  have hspec : spec = specTotals cL (fun k' v => if k' = k0 then ({v} : Multiset Rat) else 0) (fun _ => 0) 0 ops := by
+    -- `specTotals` only looks at the readers' temporalities
+    have : ∀ (pend : Nat → Multiset Rat) (all : Multiset Rat) (ops : List (Op K Rat)),
+        specTotals cP (fun k' v => if k' = k0 then ({v} : Multiset Rat) else 0) pend all ops =
+        specTotals cL (fun k' v => if k' = k0 then ({v} : Multiset Rat) else 0) pend all ops := by
+      intro pend all ops
+      induction ops generalizing pend all with
+      | nil => rfl
+      | cons op ops ih => cases op <;> simp [specTotals, ih] <;> rfl
+    exact this _ _ _
+  rw [hrun, List.getElem?_map] at hi
+  cases hL : (Store.run cL (Store.init cL) ops).2[i]? with
+  | none => rw [hL] at hi; simp at hi
+  | some oL =>
+    rw [hL] at hi
+    simp only [Option.map_some, Option.some.injEq, Prod.mk.injEq] at hi
+    obtain ⟨hr, hes⟩ := hi
+    cases hoL : oL.2 with
+    | none => rw [hoL] at hes; simp at hes
+    | some esL =>
+      rw [hoL] at hes
+      simp only [Option.map_some, Option.some.injEq] at hes
+      subst hes
+      rw [lookupKey_mapE] at hp
+      cases hl : lookupKey k0 esL with
+      | none => rw [hl] at hp; simp at hp
+      | some l0 =>
+        rw [hl] at hp
+        simp only [Option.map_some, Option.some.injEq] at hp
+        have hmem : (oL.1, some esL) ∈ (Store.run cL (Store.init cL) ops).2 := by
+          have := List.mem_of_getElem? hL
+          rw [← hoL]; exact this
+        have hnd := run_nodup cL ops (Store.init cL) (by simp [KeysNodup, Store.init, Table.empty]) oL.1 esL hmem
+        refine ⟨(l0 : Multiset Rat), ?_, ?_⟩
+        · have hkey' : List.map (fun o => (o.1, outKey k0 freeMeasure.μ o.2)) (Store.run cL (Store.init cL) ops).2 =
+              specTotals cL (fun k' v => if k' = k0 then ({v} : Multiset Rat) else 0) (fun _ => 0) 0 ops := hkey
+          rw [hspec, ← hkey', List.getElem?_map, hL]
+          simp only [Option.map_some, Option.some.injEq, Prod.mk.injEq]
+          refine ⟨hr, ?_⟩
+          rw [hoL]
+          show totK k0 freeMeasure.μ esL = _
+          rw [totK_of_nodup k0 freeMeasure.μ esL hnd, hl]
+          rfl
+        · intro l hlm
+          rw [← hp]
+          exact hist_perm k cfg (Multiset.coe_eq_coe.mp hlm.symm)
 
 end Otel.C07
